@@ -30,11 +30,44 @@ def _first(v):
     return v[0] if isinstance(v, tuple) else v
 
 
-def _purity(ctx, f, width_in, lead_shapes, bits=True, tag=""):
+def _pl(t):
+    """payload (re, im|None) of a real or complex tensor"""
+    from vk.tensor import PC
+
+    if t.dtype.is_complex:
+        return PC(t)
+    return P(t), None
+
+
+def _member(ctx, x, sel):
+    """the sub-tensor x[sel] as a new tensor of the current mode (real or complex)"""
+    re, im = _pl(x)
+    if im is None:
+        return ctx.tensor(re[sel], x.dtype)
+    from .c05 import _complex_tensor
+
+    return _complex_tensor(ctx, re[sel], im[sel], x.dtype)
+
+
+def _same(a, b, sel_a=None):
+    """payload equality of tensor a (optionally a[sel_a]) and tensor b, flattened"""
+    (ar, ai), (br, bi) = _pl(a), _pl(b)
+    if sel_a is not None:
+        ar = ar[sel_a]
+        ai = None if ai is None else ai[sel_a]
+    if (ai is None) != (bi is None) or ar.size != br.size:
+        return False
+    ok = SP.all_eq(ar.reshape(-1), br.reshape(-1))
+    if ai is not None:
+        ok = S.land(ok, SP.all_eq(ai.reshape(-1), bi.reshape(-1)))
+    return ok
+
+
+def _purity(ctx, f, width_in, lead_shapes, bits=True, tag="", make=None):
     """generic clause set for a per-block component f acting on the last dimension (block width width_in)"""
     for lname, lead in lead_shapes:
         shape = lead + (width_in,)
-        x = ctx.bits(f"x{tag}_{lname}", shape)
+        x = (make or ctx.bits)(f"x{tag}_{lname}", shape)
         out = ctx.call(f, x)
         if not out.ok:
             # a layout the component cannot process must be REJECTED (an error), which is acceptable
@@ -46,41 +79,43 @@ def _purity(ctx, f, width_in, lead_shapes, bits=True, tag=""):
         ctx.ensure(f"{lname}.leading_dims_preserved", ok_shape)
         if not ok_shape:
             continue
-        yp = P(y)
-        xp = P(x)
         claims = []
         for pos in np.ndindex(*lead):
-            single = ctx.call(f, ctx.tensor(xp[pos]))
+            single = ctx.call(f, _member(ctx, x, pos))
             if not single.ok:
                 claims.append(False)
                 continue
-            sp = P(_first(single.value))
-            claims.append(SP.all_eq(yp[pos].reshape(-1), sp.reshape(-1)))
+            claims.append(_same(y, _first(single.value), pos))
         ctx.ensure(f"{lname}.batch_equals_stack_of_singles", SP.conj(claims))
         again = ctx.call(f, x)
-        ctx.ensure(f"{lname}.repeated_call_identical", again.ok and SP.all_eq(P(_first(again.value)), yp))
+        ctx.ensure(f"{lname}.repeated_call_identical", again.ok and _same(_first(again.value), y))
 
 
-def _multiblock(ctx, f, width_in, tag="", rows=2):
+def _multiblock(ctx, f, width_in, tag="", rows=2, make=None):
     """(B, 2*n): equal to per-block evaluation, or raises"""
-    x = ctx.bits(f"x{tag}_Bb", (rows, 2 * width_in))
+    x = (make or ctx.bits)(f"x{tag}_Bb", (rows, 2 * width_in))
     out = ctx.call(f, x)
     if not out.ok:
         ctx.ensure("Bb.rejected_with_error_not_values", out.raised(ValueError, AssertionError, RuntimeError, IndexError, TypeError), note=repr(out.exc))
         return
-    y = P(_first(out.value))
-    xp = P(x)
+    y = _first(out.value)
+    yr, yi = _pl(y)
     claims = []
     for b in range(rows):
-        parts = []
+        pr, pi = [], []
         for blk in range(2):
-            single = ctx.call(f, ctx.tensor(xp[b][blk * width_in : (blk + 1) * width_in]))
+            single = ctx.call(f, _member(ctx, x, (b, slice(blk * width_in, (blk + 1) * width_in))))
             if not single.ok:
                 claims.append(False)
                 break
-            parts.append(P(_first(single.value)).reshape(-1))
+            sr, si = _pl(_first(single.value))
+            pr.append(sr.reshape(-1))
+            pi.append(None if si is None else si.reshape(-1))
         else:
-            claims.append(SP.all_eq(y[b].reshape(-1), np.concatenate(parts)))
+            ok = yr[b].size == sum(a.size for a in pr) and SP.all_eq(yr[b].reshape(-1), np.concatenate(pr))
+            if ok is not False and yi is not None:
+                ok = S.land(ok, SP.all_eq(yi[b].reshape(-1), np.concatenate(pi))) if all(a is not None for a in pi) else False
+            claims.append(ok)
     ctx.ensure("Bb.equals_per_block_evaluation", SP.conj(claims))
 
 
@@ -606,3 +641,50 @@ def demodulators_bounded(spec, vcfg, tier, seed):
 
     # soft outputs of tied members may differ in the last float bit between batch sizes: tolerance 1e-5; hard outputs are compared exactly through it as well (0/1 values)
     return purity_native(spec, vcfg, f, member, 3, tier, seed, "3 symbols per member: noise-free, origin (tie), far outside, noisy; complex64 and complex128 in turn", dtypes=(None, torch.complex128), tol=1e-5)
+
+
+# ---------------------------------------------------------------------------------------- memoryless modulators / demodulators (symbolic)
+def _sym_mod_cfgs(tier):
+    from . import mods
+
+    cs = mods.catalogue(tier, families=("bpsk", "qpsk", "psk", "qam", "pam"), max_points=64 if tier == "quick" else 256)
+    return codes.with_variants(cs, ["B2", "B21", "B3", "Bb"])
+
+
+@obligation("C20.modulators", function=FMOD, configs=_sym_mod_cfgs, max_paths=4096, timeout_ms=30000, crosscheck=1)
+def modulators(ctx, vcfg):
+    """for ALL bit values: modulate(batch)[i] == modulate(member i) (one symbol per member; Bb: two symbols per row equal the two
+    one-symbol results), repeated call identical, input unmodified"""
+    from . import mods
+
+    cfg, lay = codes.split_variant(vcfg)
+    mod, _ = mods.build(cfg)
+    b = mods.bits_per_symbol(cfg)
+    if lay == "Bb":
+        _multiblock(ctx, mod.forward, b)
+    else:
+        _purity(ctx, mod.forward, b, [l for l in LEADS + [("B3", (3,))] if l[0] == lay])
+
+
+def _sym_dem_cfgs(tier):
+    from . import mods
+
+    cs = mods.catalogue(tier, families=("bpsk", "qpsk", "psk", "qam", "pam"), max_points=8 if tier == "quick" else 16)
+    return codes.with_variants(cs, ["hard:B2", "hard:B21", "hard:Bb", "soft:B2", "soft:Bb"])
+
+
+@obligation("C20.demodulators", function=FDEM, configs=_sym_dem_cfgs, max_paths=8192, timeout_ms=60000, crosscheck=1)
+def demodulators(ctx, vcfg):
+    """for ALL received points (symbolic reals): demodulate(batch)[i] == demodulate(member i), hard and soft (unit noise variance);
+    constellations up to 8 (thorough 16) points - the hard decision forks once per candidate point and symbol"""
+    from . import mods
+
+    cfg, var = codes.split_variant(vcfg)
+    how, lay = var.split(":")
+    _, dem = mods.build(cfg)
+    f = dem.forward if how == "hard" else (lambda y: dem.forward(y, torch.tensor(1.0)))
+    mk = lambda name, shape: ctx.complexes(name, shape)
+    if lay == "Bb":
+        _multiblock(ctx, f, 1, make=mk)
+    else:
+        _purity(ctx, f, 1, [l for l in LEADS if l[0] == lay], make=mk)
